@@ -267,6 +267,125 @@ func endsInExit(b *ast.BlockStmt) bool {
 // element count, or two fields of one object (a shape invariant of that type's constructors,
 // which this rule does not decide and says so).
 func sameSource(p *packagesPackage, fd *ast.FuncDecl, a, b ast.Expr) (string, bool) {
+	return sameSourceDepth(p, fd, a, b, 0)
+}
+
+// paramIndex: e is an identifier naming a parameter of fd that the body never reassigns.
+func paramIndex(p *packagesPackage, fd *ast.FuncDecl, e ast.Expr) int {
+	id, ok := ast.Unparen(e).(*ast.Ident)
+	if !ok || fd.Type.Params == nil {
+		return -1
+	}
+	obj := p.TypesInfo.Uses[id]
+	if obj == nil {
+		obj = p.TypesInfo.Defs[id]
+	}
+	idx, i := -1, 0
+	for _, fld := range fd.Type.Params.List {
+		for _, nm := range fld.Names {
+			if p.TypesInfo.Defs[nm] == obj && obj != nil {
+				idx = i
+			}
+			i++
+		}
+	}
+	if idx < 0 || fd.Type.Params.List[len(fd.Type.Params.List)-1].Type == nil {
+		return -1
+	}
+	if _, variadic := fd.Type.Params.List[len(fd.Type.Params.List)-1].Type.(*ast.Ellipsis); variadic {
+		return -1
+	}
+	reassigned := false
+	ast.Inspect(fd.Body, func(n ast.Node) bool {
+		switch s := n.(type) {
+		case *ast.AssignStmt:
+			for _, l := range s.Lhs {
+				if lid, ok := l.(*ast.Ident); ok && (p.TypesInfo.Uses[lid] == obj) {
+					reassigned = true
+				}
+			}
+		case *ast.UnaryExpr:
+			if lid, ok := s.X.(*ast.Ident); ok && s.Op == token.AND && p.TypesInfo.Uses[lid] == obj {
+				reassigned = true
+			}
+		}
+		return true
+	})
+	if reassigned {
+		return -1
+	}
+	return idx
+}
+
+// sameSourceAtCallers: a and b are parameters of the unexported function fd, which is only
+// ever called (never used as a value), and at every call site the two arguments are
+// same-source in the caller.
+func sameSourceAtCallers(p *packagesPackage, fd *ast.FuncDecl, a, b ast.Expr, depth int) (string, bool) {
+	ia, ib := paramIndex(p, fd, a), paramIndex(p, fd, b)
+	if ia < 0 || ib < 0 || depth >= 2 || fd.Recv != nil || fd.Name.IsExported() {
+		return "", false
+	}
+	fn := p.TypesInfo.Defs[fd.Name]
+	sites, okAll := 0, true
+	var why string
+	for _, file := range p.Syntax {
+		for _, d := range file.Decls {
+			caller, ok := d.(*ast.FuncDecl)
+			if !ok || caller.Body == nil {
+				// a package-level initialiser mentioning fn
+				ast.Inspect(d, func(n ast.Node) bool {
+					if id, ok := n.(*ast.Ident); ok && p.TypesInfo.Uses[id] == fn {
+						okAll = false
+					}
+					return true
+				})
+				continue
+			}
+			called := map[*ast.Ident]bool{}
+			ast.Inspect(caller.Body, func(n ast.Node) bool {
+				call, ok := n.(*ast.CallExpr)
+				if !ok {
+					return true
+				}
+				fun := ast.Unparen(call.Fun)
+				if ix, ok := fun.(*ast.IndexExpr); ok { // explicit instantiation f[T](…)
+					fun = ix.X
+				}
+				id, ok := fun.(*ast.Ident)
+				if !ok || p.TypesInfo.Uses[id] != fn {
+					return true
+				}
+				called[id] = true
+				sites++
+				if ia >= len(call.Args) || ib >= len(call.Args) || call.Ellipsis.IsValid() {
+					okAll = false
+					return true
+				}
+				w, ok := sameSourceDepth(p, caller, call.Args[ia], call.Args[ib], depth+1)
+				if !ok {
+					okAll = false
+				}
+				why = w
+				return true
+			})
+			ast.Inspect(caller.Body, func(n ast.Node) bool {
+				if id, ok := n.(*ast.Ident); ok && p.TypesInfo.Uses[id] == fn && !called[id] {
+					okAll = false // used as a value
+				}
+				return true
+			})
+		}
+	}
+	if sites == 0 || !okAll {
+		return "", false
+	}
+	return fmt.Sprintf("parameters bound at all %d call sites of %s to %s", sites, fd.Name.Name, why), true
+}
+
+func sameSourceDepth(p *packagesPackage, fd *ast.FuncDecl, a, b ast.Expr, depth int) (string, bool) {
+	if why, ok := sameSourceAtCallers(p, fd, a, b, depth); ok {
+		return why, true
+	}
 	aT, bT := types.ExprString(a), types.ExprString(b)
 	// definitions: name -> make(len(X)) source, literal sizes, range aliases
 	madeFrom := map[string]string{}
